@@ -316,6 +316,274 @@ pub fn case_strategy() -> impl Strategy<Value = Case> {
 }
 
 // =========================================================================================
+// libFuzzer input decoder: bytes -> Case, same domain as `case_strategy()`
+//
+// Layout (front to back): encoder options, base font header (scalars, metrics, extra tables),
+// collection (members with their own small glyph lists), then the base font's glyphs until the
+// input ends. `Unstructured` pads an exhausted input with zeros and never fails for the
+// operations used here, so every input decodes; the selectors are arranged such that the
+// all-zero padding means "TrueType, glyf transform 0, hmtx flags wanted, no collection, one
+// 65536-byte brotli chunk" (the interesting default) and a short input is a small font.
+
+type UR<T> = arbitrary::Result<T>;
+type Un<'a, 'b> = &'b mut arbitrary::Unstructured<'a>;
+
+/// `bbox_raw()`: small / arbitrary / medium boxes (the union is every i16 quadruple)
+fn u_bbox(u: Un) -> UR<(i16, i16, i16, i16)> {
+    Ok(match u.int_in_range(0u8..=5)? {
+        0..=2 => (u.int_in_range(-3i16..=3)?, u.int_in_range(-3i16..=3)?, u.int_in_range(-3i16..=3)?, u.int_in_range(-3i16..=3)?),
+        3..=4 => (u.arbitrary()?, u.arbitrary()?, u.arbitrary()?, u.arbitrary()?),
+        _ => (u.int_in_range(-2000i16..=1999)?, u.int_in_range(-2000i16..=1999)?, u.int_in_range(-2000i16..=1999)?, u.int_in_range(-2000i16..=1999)?),
+    })
+}
+
+/// `sel16(p)`: any u16; the special range 65000..=65535 (536 values) is taken for one of the
+/// `one_in` selector values (not for 0, so that zero padding gives the ordinary range)
+fn u_sel16(u: Un, one_in: u8) -> UR<u16> {
+    let m = u.int_in_range(0u8..=one_in - 1)?;
+    let v: u16 = u.arbitrary()?;
+    Ok(if m == one_in - 1 { 65000 + v % 536 } else { v % 65000 })
+}
+
+/// `pt_raw()`: one byte holds kind (0..16) and the sign / on-curve bits (0..8)
+fn u_pt(u: Un) -> UR<PtRaw> {
+    let k: u8 = u.arbitrary()?;
+    Ok((k & 15, u.arbitrary()?, u.arbitrary()?, (k >> 4) & 7))
+}
+
+/// `comp_raw()`
+fn u_comp(u: Un) -> UR<CompRaw> {
+    let k: u8 = u.arbitrary()?;
+    Ok(CompRaw {
+        words: k & 1 != 0,
+        xkind: (k >> 1) & 3,
+        misc: u.arbitrary()?,
+        glyph: u.arbitrary()?,
+        a1: u.arbitrary()?,
+        a2: u.arbitrary()?,
+        xf: (u.arbitrary()?, u.arbitrary()?, u.arbitrary()?, u.arbitrary()?),
+    })
+}
+
+/// `glyph_raw()`: 10/16 simple, 3/16 composite, 2/16 empty, 1/16 empty with header
+fn u_glyph(u: Un) -> UR<GlyphRaw> {
+    Ok(match u.int_in_range(0u8..=15)? {
+        0..=9 => {
+            let h: u8 = u.arbitrary()?;
+            let (bbox_mode, style) = (h & 3, (h >> 2) & 7);
+            let big_sel = u_sel16(u, 32)?;
+            let instr_sel = u_sel16(u, 8)?;
+            // the noise is only read where it is used (modes 2, 3); (0, 0, 0, 0) is in bbox_raw()
+            let bbox_noise = if bbox_mode >= 2 { u_bbox(u)? } else { (0, 0, 0, 0) };
+            let nc = u.int_in_range(1usize..=4)?;
+            let mut contours = Vec::with_capacity(nc);
+            for _ in 0..nc {
+                let np = u.int_in_range(1usize..=6)?;
+                let mut c = Vec::with_capacity(np);
+                for _ in 0..np {
+                    c.push(u_pt(u)?);
+                }
+                contours.push(c);
+            }
+            GlyphRaw::Simple { contours, big_sel, instr_sel, bbox_mode, bbox_noise, style }
+        }
+        10..=12 => {
+            let instr_sel = u_sel16(u, 8)?;
+            let bbox = u_bbox(u)?;
+            let n = u.int_in_range(1usize..=4)?;
+            let mut comps = Vec::with_capacity(n);
+            for _ in 0..n {
+                comps.push(u_comp(u)?);
+            }
+            GlyphRaw::Composite { comps, instr_sel, bbox }
+        }
+        13..=14 => GlyphRaw::Empty,
+        _ => GlyphRaw::EmptyHeader,
+    })
+}
+
+/// `metrics_raw()`
+fn u_metrics(u: Un) -> UR<MetricsRaw> {
+    let h: u8 = u.arbitrary()?;
+    let nhm_sel = h & 3;
+    let lsb_mode = (h >> 2) % 6;
+    let r: u16 = u.arbitrary()?;
+    let na = u.int_in_range(1usize..=5)?;
+    let mut adv = Vec::with_capacity(na);
+    for _ in 0..na {
+        adv.push(u.arbitrary()?);
+    }
+    let nl = u.int_in_range(1usize..=5)?;
+    let mut lsb_noise = Vec::with_capacity(nl);
+    for _ in 0..nl {
+        lsb_noise.push(if u.int_in_range(0u8..=2)? < 2 { u.int_in_range(-40i16..=39)? } else { u.arbitrary()? });
+    }
+    Ok(MetricsRaw { adv, lsb_noise, lsb_mode, nhm_sel, r })
+}
+
+/// everything of `font_raw()` except the glyph list
+fn u_font_head(u: Un) -> UR<FontRaw> {
+    // 0 = CFF flavoured in the model; the padding value 0 is mapped to TrueType
+    let outline_sel = (u.int_in_range(0u8..=11)? + 1) % 12;
+    let h: u8 = u.arbitrary()?;
+    let long_loca = h & 1 != 0;
+    let align_sel = (h >> 1) % 3;
+    let flavour_true = u.int_in_range(0u8..=9)? == 9;
+    let big_table = u.int_in_range(0u8..=47)?;
+    let metrics = u_metrics(u)?;
+    let ne = u.int_in_range(0usize..=3)?;
+    let mut extras = Vec::with_capacity(ne);
+    for _ in 0..ne {
+        let sel = u.int_in_range(0u8..=N_EXTRA_TAGS - 1)?;
+        let len = u.int_in_range(1usize..=23)?;
+        let mut d = Vec::with_capacity(len);
+        for _ in 0..len {
+            d.push(u.arbitrary()?);
+        }
+        extras.push((sel, d));
+    }
+    Ok(FontRaw { glyphs: Vec::new(), metrics, long_loca, align_sel, extras, outline_sel, flavour_true, big_table })
+}
+
+/// `member_raw()`; the complete second font is `font_raw(true)`: 1..=8 glyphs
+fn u_member(u: Un) -> UR<MemberRaw> {
+    let k: u8 = u.arbitrary()?;
+    let share_mask: u8 = u.arbitrary()?;
+    Ok(if k & 1 == 0 {
+        let metrics = if (k >> 1) % 5 != 4 { Some(u_metrics(u)?) } else { None };
+        MemberRaw::Sibling { metrics, own_head: k & 0x80 != 0, share_mask }
+    } else {
+        let mut font = u_font_head(u)?;
+        let n = u.int_in_range(1usize..=8)?;
+        for _ in 0..n {
+            font.glyphs.push(u_glyph(u)?);
+        }
+        MemberRaw::Independent { font, share_mask }
+    })
+}
+
+/// one brotli chunk length of `enc_raw()`: 1..=4095, 65535, 65536 or 65537..=199_999
+fn u_chunk(u: Un) -> UR<u32> {
+    Ok(match u.int_in_range(0u8..=8)? {
+        0..=1 => 65536,
+        2..=4 => u.int_in_range(64u32..=4095)?,
+        5..=6 => u.int_in_range(1u32..=63)?,
+        7 => 65535,
+        _ => u.int_in_range(65537u32..=199_999)?,
+    })
+}
+
+/// `enc_raw()`
+fn u_enc(u: Un) -> UR<EncRaw> {
+    let mut glyf_xform = Vec::with_capacity(3);
+    let mut hmtx_want = Vec::with_capacity(3);
+    for _ in 0..3 {
+        // padding 0 -> transform 0 (model value 1); model value 0 (null transform) is input 4
+        glyf_xform.push((u.int_in_range(0u8..=4)? + 1) % 5);
+    }
+    for _ in 0..3 {
+        // padding 0 -> both flag bits wanted
+        hmtx_want.push((u.int_in_range(0u8..=3)? + 3) % 4);
+    }
+    // the soft probe is model value 0; padding 0 -> 1 (no probe)
+    let hmtx_only_probe = (u.int_in_range(0u8..=15)? + 1) % 16;
+    let h: u8 = u.arbitrary()?;
+    let bbox_choose = h & 1 != 0;
+    let via_fontdata = h & 2 != 0;
+    let meta_every = (h >> 2) & 3;
+    let meta_skip = (h >> 4) % 6;
+    let wbits_sel = u.int_in_range(0u8..=19)?;
+    let explicit_mask = match u.int_in_range(0u8..=3)? {
+        0..=1 => 0,
+        2 => u.arbitrary()?,
+        _ => u32::MAX,
+    };
+    let nchunks = u.int_in_range(1usize..=3)?;
+    let mut chunks = Vec::with_capacity(nchunks);
+    for _ in 0..nchunks {
+        chunks.push(u_chunk(u)?);
+    }
+    let version: (u16, u16) = (u.arbitrary()?, u.arbitrary()?);
+    let no = u.int_in_range(0usize..=7)?;
+    let mut order = Vec::with_capacity(no);
+    for _ in 0..no {
+        order.push(u.arbitrary()?);
+    }
+    let nch = u.int_in_range(0usize..=23)?;
+    let mut choices = Vec::with_capacity(nch);
+    for _ in 0..nch {
+        choices.push(u.arbitrary()?);
+    }
+    let nm = u.int_in_range(0usize..=39)?;
+    let metadata = if nm == 0 {
+        None
+    } else {
+        let mut m = Vec::with_capacity(nm);
+        for _ in 0..nm {
+            m.push(u.int_in_range(0x20u8..=0x7E)?);
+        }
+        Some(m)
+    };
+    let np = u.int_in_range(0usize..=5)?;
+    let mut private = Vec::with_capacity(np);
+    for _ in 0..np {
+        private.push(u.arbitrary()?);
+    }
+    Ok(EncRaw {
+        glyf_xform,
+        hmtx_want,
+        hmtx_only_probe,
+        order,
+        explicit_mask,
+        choices,
+        bbox_choose,
+        wbits_sel,
+        chunks,
+        meta_every,
+        meta_skip,
+        version,
+        metadata,
+        private,
+        via_fontdata,
+    })
+}
+
+/// The largest glyph count of the base font (`font_raw(false)`: 1..=43 or 62..=67).
+const FUZZ_MAX_GLYPHS: usize = 67;
+
+/// bytes -> Case (libFuzzer target `c11_woff2`, `vcheck replay-bytes c11_woff2 <file>`)
+pub fn case_from_bytes(data: &[u8]) -> arbitrary::Result<Case> {
+    let mut u = arbitrary::Unstructured::new(data);
+    let u = &mut u;
+    let enc = u_enc(u)?;
+    let mut font = u_font_head(u)?;
+    let coll = match u.int_in_range(0u8..=9)? {
+        0..=6 => None,
+        k => {
+            let h: u8 = u.arbitrary()?;
+            let n = (k - 7) as usize; // 0..=2 further members
+            let mut extra = Vec::with_capacity(n);
+            for _ in 0..n {
+                extra.push(u_member(u)?);
+            }
+            Some(CollRaw { extra, v2: h & 1 != 0, shuffle_indices: (h >> 1) % 10 < 3 })
+        }
+    };
+    // the base font's glyphs take the rest of the input
+    while font.glyphs.len() < FUZZ_MAX_GLYPHS && !u.is_empty() {
+        font.glyphs.push(u_glyph(u)?);
+    }
+    // the strategy's glyph counts are 1..=43 and 62..=67
+    if font.glyphs.is_empty() {
+        font.glyphs.push(u_glyph(u)?);
+    }
+    if (44..62).contains(&font.glyphs.len()) {
+        font.glyphs.truncate(43);
+    }
+    Ok(Case { font, coll, enc })
+}
+
+// =========================================================================================
 // resolution: raw -> glyph model -> tables
 
 const BOUNDARY: [i32; 26] =
